@@ -390,7 +390,37 @@ def _medium_models():
 
         return build
 
-    return [("queens8", queens(8)), ("queens10", queens(10)), ("sum_eq_12_terms", long_sum(12, 17, "eq")), ("sum_le_16_terms", long_sum(16, 9, "le")), ("sum_ge_24_terms", long_sum(24, 60, "ge")), ("circuit8", tour(8)), ("circuit12", tour(12)), ("no_overlap_8_tasks", machine(8, 1)), ("cumulative_8_tasks_cap3", machine(8, 3))]
+    def hidden_perm(n, a, b):
+        perm = [(3 * i + 2) % n if n % 3 else (5 * i + 2) % n for i in range(n)]
+
+        def build(m):
+            x = [m.int_var(0, n - 1, f"x{i}") for i in range(n)]
+            m.add(m.all_different(x))
+            eqs = []
+            for i in range(n):
+                j, k = (i + 1) % n, (i + 3) % n
+                c = a * perm[i] + b * perm[j] - perm[k]
+                m.add(a * x[i] + b * x[j] == x[k] + c)
+                eqs.append((i, j, k, c))
+
+            def chk(v):
+                bad = [] if len(set(v)) == n else ["all_different"]
+                return bad + [f"{a}*x{i} + {b}*x{j} - x{k} == {c}" for i, j, k, c in eqs if a * v[i] + b * v[j] - v[k] != c]
+
+            return x, chk
+
+        return build
+
+    def alldiff_then_equal(n):
+        def build(m):
+            x = [m.int_var(0, n - 1, f"x{i}") for i in range(n)]
+            m.add(m.all_different(x))
+            m.add(x[n - 1] == x[0])
+            return x, None  # no assignment satisfies this model
+
+        return build
+
+    return [("hidden_permutation_8", hidden_perm(8, 1, 2)), ("hidden_permutation_10", hidden_perm(10, 2, 1)), ("hidden_permutation_11", hidden_perm(11, 1, 1)), ("alldiff8_last_equals_first", alldiff_then_equal(8)), ("alldiff9_last_equals_first", alldiff_then_equal(9)), ("queens8", queens(8)), ("queens10", queens(10)), ("sum_eq_12_terms", long_sum(12, 17, "eq")), ("sum_le_16_terms", long_sum(16, 9, "le")), ("sum_ge_24_terms", long_sum(24, 60, "ge")), ("circuit8", tour(8)), ("circuit12", tour(12)), ("no_overlap_8_tasks", machine(8, 1)), ("cumulative_8_tasks_cap3", machine(8, 3))]
 
 
 def _medium_chunk(params, lo, hi):
@@ -415,6 +445,10 @@ def _medium_chunk(params, lo, hi):
             r["violations"].append(viol("Model.solve", "raised" if not isinstance(ex, SolverHang) else "nontermination", wit, f"Model.solve(solver={solver!r}) on {name}: {type(ex).__name__}: {str(ex)[:120]}"))
             continue
         r["outcomes"][f"medium:{res.status.name}"] += 1
+        if chk is None:  # infeasible by construction
+            if res.status != Status.INFEASIBLE:
+                r["violations"].append(viol("Model.solve", "constraint_broken", wit, f"Model.solve(solver={solver!r}) on {name}: status {res.status.name} with {res.solution} although no assignment satisfies the model"))
+            continue
         if res.status != Status.OPTIMAL or res.solution is None:
             r["violations"].append(viol("Model.solve", "wrong_infeasible", wit, f"Model.solve(solver={solver!r}) on {name}: status {res.status.name} although the model is satisfiable by construction"))
             continue
@@ -508,7 +542,7 @@ def jobs(tier, seed):
             lo, hi = size * b // nb, size * (b + 1) // nb
             label = f"{name}_block{b}of{nb}"
         js.append(Job(label, hi - lo, _chunk, (name, full_mod, lo), describe=f"model space '{name}' ({size} models); every {full_mod}-th model gets the full solver/limit/hint menu, the others solver x limit in {{1,10^6}}"))
-    js.append(Job("medium_models", len(_medium_models()) * 3, _medium_chunk, None, chunk=1, describe="8 and 10 queens, sums over 12-24 variables, circuits on 8 and 12 nodes, 8 tasks on a unary / capacity-3 resource: satisfiable by construction, the returned assignment is checked against the definitions; auto, dfs and sat"))
+    js.append(Job("medium_models", len(_medium_models()) * 3, _medium_chunk, None, chunk=1, describe="hidden permutations pinned by ternary equalities (8-11 variables), all_different plus x[n-1] == x[0] (infeasible), 8 and 10 queens, sums over 12-24 variables, circuits on 8 and 12 nodes, 8 tasks on a unary / capacity-3 resource: satisfiable by construction, the returned assignment is checked against the definitions; auto, dfs and sat"))
     js.append(Job("deep_models", len(DEEP) * 3, _deep_chunk, None, chunk=1, describe="1500 unconstrained 0/1 variables, 1100 variables over 0..2 with x[i] != x[i+1] on the first 30, 1100 variables over 0..3 with x[0] + x[1099] == 6: more decision levels than the interpreter's recursion limit; dfs, auto and sat"))
     js.append(Job("incremental_resolve", N_INC, _inc_chunk, None, describe="histories of one Model object: build, solve, add a variable and constraints, solve again (8 first parts x 8 second parts x 3 domains x solver pairs x limits)"))
     return js
